@@ -14,6 +14,8 @@ SHARDS = {'quick': 4, 'thorough': 16, 'quick_timeout': 900, 'thorough_timeout': 
 
 REG = {}      # id(fitter) -> (GridTruth, current literal photometry)
 CUR = {}
+PREV = []
+PREV_DIR = []
 
 
 def install(ctx):
@@ -23,8 +25,6 @@ def install(ctx):
         ctx.event('Fitter.fit:post')
         tr = REG.get(id(self))
         if tr is not None and CUR.get('phot') is not None:
-            for b in probe.inv_fi(result):
-                ctx.violation('fit2d:inv-fi', b, CUR['wit'])
             valid, flux, error = CUR['phot']
             CUR['summary'] = fitcheck.check_fit2d(ctx, tr, valid, flux, error, result, CUR['wit'])
         return True
@@ -34,7 +34,7 @@ def install(ctx):
 
 def make_package(ctx, rng, d):
     """random non-aperture-dependent package; returns dict describing it"""
-    n_models = int(rng.choice([1, 2, 5, 12, 40]))
+    n_models = int(rng.choice([1, 2, 5, 12, 40, 150], p=[0.15, 0.2, 0.25, 0.2, 0.15, 0.05]))
     n_bands = int(rng.integers(2, 9))
     names = gen.model_names(rng, n_models)
     wav = gen.band_wavelengths(rng, n_bands)
@@ -48,7 +48,9 @@ def make_package(ctx, rng, d):
     info = dict(style=style, fmt=fmt, n_models=n_models, n_bands=n_bands)
     if style == 'v1':
         order = list(rng.permutation(n_models))
-        gen.write_grid_v1(d, names, bnames, wav, grid, fmt=fmt, table_order=order)
+        funit = str(rng.choice(['mJy', 'mJy', 'Jy', 'uJy'])) if fmt == 'D' else 'mJy'      # the package may tabulate fluxes in another unit
+        info['flux_unit'] = funit
+        gen.write_grid_v1(d, names, bnames, wav, grid, fmt=fmt, table_order=order, flux_unit=funit)
         filt = bnames
         truth_grid = grid[:, 0, :]
     elif style == 'v1multi':          # multi-aperture files in a non-aperture-dependent package: column 0 is used
@@ -56,7 +58,9 @@ def make_package(ctx, rng, d):
         g = gen.conv_grid(rng, n_models, n_bands, n_ap=n_ap)
         if fmt == 'E':
             g = pkg.r32(g)
-        gen.write_grid_v1(d, names, bnames, wav, g, apertures=gen.aperture_table(rng, n_ap), fmt=fmt)
+        funit = str(rng.choice(['mJy', 'Jy'])) if fmt == 'D' else 'mJy'
+        info['flux_unit'] = funit
+        gen.write_grid_v1(d, names, bnames, wav, g, apertures=gen.aperture_table(rng, n_ap), fmt=fmt, flux_unit=funit)
         filt = bnames
         truth_grid = g[:, 0, :]
     elif style == 'v2name':
@@ -94,7 +98,7 @@ def run(ctx):
                'float32 memmap fitters are compared with a bound of 3e-7*(1+max|log10 F|) dex on model log-fluxes',
                'limits within 1e-9 dex (1e-6 memmap) of the prediction: either outcome accepted',
                'flag-9 slots carry positive finite values here (hostile values in ignored slots are C03)')
-    ctx.require_events('Fitter.fit:post')
+    ctx.require_events('Fitter.fit:post', 'interleave:previous-package')
     ctx.require_regimes('av_interior', 'av_clamped_lo', 'av_clamped_hi', 'lo_eq_hi', 'limit_violated',
                         'limit_satisfied', 'k0_band', 'style:v1', 'style:v2name', 'style:v2wav',
                         'memmap_on', 'memmap_off')
@@ -126,13 +130,52 @@ def run(ctx):
         # float32 memmap: fluxes rounded to float32 and log10 evaluated in float32
         delta = 3e-7 * (1 + float(np.max(np.abs(logm)))) if (memmap and is_v2) else 0.0
         nb = len(wav)
+        # the A_V range is a constructor argument of the Fitter (the docs say it cannot be changed afterwards), so one
+        # Fitter is built per range; all of them stay alive and are used alternately, source after source
+        ac = 10.0
+        r_ = float(rng.random())
+        ranges = [(-1e3, 1e3), (ac + 2 + r_, ac + 40.0), (ac - 40.0, ac - 2 - r_), (ac - 0.3 * r_, ac + 0.3 * r_),
+                  (round(ac + float(rng.normal(0, 3)), 2),) * 2, (-30.0, -1.0 - r_), (0, 40), (0.0, np.inf)]
+        fitters = []
         try:
-            base_fitter = gen.make_fitter(filt, np.ones(nb), d, law, (0.0, 1.0), use_memmap=memmap)
+            for (lo, hi) in ranges:
+                fitters.append(gen.make_fitter(filt, np.ones(nb), d, law, (lo, hi), use_memmap=memmap))
         except Exception as exc:
             ctx.violation('fit2d:fitter-construction-failed',
                           'Fitter() raised on a well-formed package: %r' % (exc,), dict(pinfo, wav=wav))
             ctx.rmdir(d)
             continue
+
+        def one_fit(fitter, lo, hi, names_, logm_, k_, delta_, src, phot, wit, key):
+            tr = fitcheck.GridTruth(names_, logm_, k_, lo, hi, delta=delta_, tag=wit.get('style', ''))
+            REG.clear()
+            REG[id(fitter)] = tr
+            CUR.update(phot=phot, wit=wit, summary=None)
+            try:
+                fitter.fit(src)
+            except Exception as exc:
+                ctx.violation('fit2d:fit-raised', 'Fitter.fit raised inside the quantifier: %r' % (exc,), wit)
+                return None
+            sm = CUR.get('summary')
+            ctx.case(key, nontrivial=sm is not None,
+                     sample=dict(style=wit.get('style'), valid=phot[0], flux=phot[1], error=phot[2], av_range=(lo, hi), n_models=len(names_)))
+            if sm:
+                ctx.event('rows_checked', sm['rows'])
+                for kk, rg in (('interior', 'av_interior'), ('clamped_lo', 'av_clamped_lo'), ('clamped_hi', 'av_clamped_hi'),
+                               ('limit_violated', 'limit_violated'), ('limit_satisfied', 'limit_satisfied')):
+                    if sm[kk]:
+                        ctx.regime(rg, sm[kk])
+                if lo == hi:
+                    ctx.regime('lo_eq_hi')
+            return sm
+
+        # a fitter of the previous package is still alive: using it now (after the new package was read) must still be right
+        if PREV:
+            pf, plo, phi, pn, plm, pk, pdl, psrc, pphot, pwit = PREV[0]
+            one_fit(pf, plo, phi, pn, plm, pk, pdl, psrc, pphot, dict(pwit, interleaved='previous package fitted after the next one was read'),
+                    ('prev', ip, ctx.shard))
+            ctx.event('interleave:previous-package')
+        last = None
         for isrc in range(n_src):
             # plant near a model so that regimes (limits violated/satisfied, clamping) are all reachable
             m0 = int(rng.integers(len(names)))
@@ -142,10 +185,12 @@ def run(ctx):
             valid = gen.flags_with_fit(rng, nb, k)
             wild = rng.random() < 0.15
             flux, err = gen.photometry_for(rng, valid, pred, wild=wild)
-            # C01 quantifier: positive finite values in every used slot; flag 9 positive too
+            # C01 quantifier: positive finite values in every used slot (confidences strictly inside (0,1); 0 and 1 are C03's); flag 9 positive too
             nine = valid == 9
             flux[nine] = 10.0 ** np.clip(pred[nine], -200, 200)
             err[nine] = flux[nine] * 0.1
+            lim = (valid == 2) | (valid == 3)
+            err[lim] = np.clip(err[lim], 1e-3, 1 - 1e-6)
             _, _, w = O.transform(valid, flux, err)
             fit = w > 0
             wk = np.sum(w[fit] * k[fit]) / np.sum(w[fit])
@@ -153,40 +198,20 @@ def run(ctx):
             if not np.isfinite(cond) or cond < (1e-8 if ctx.quick else 1e-9):
                 continue
             src = gen.build_source('s%d_%d' % (ip, isrc), valid, flux, err)
-            a_typ = a0 if not wild else 0.0
-            for (lo, hi) in gen.av_ranges(rng, a_typ):
-                base_fitter.av_range = (lo, hi)
-                tr = fitcheck.GridTruth(names, logm, k, lo, hi, delta=delta, tag=str(pinfo))
-                REG.clear()
-                REG[id(base_fitter)] = tr
+            for ft, (lo, hi) in zip(fitters, ranges):
                 wit = dict(pinfo, memmap=memmap, valid=valid, flux=flux, error=err, av_range=(lo, hi),
                            law_wav=lw, law_chi=lc, band_wav=wav, planted=(m0, a0, s0), logm=logm)
-                CUR.update(phot=(valid, flux, err), wit=wit, summary=None)
-                try:
-                    base_fitter.fit(src)
-                except Exception as exc:
-                    ctx.violation('fit2d:fit-raised', 'Fitter.fit raised inside the quantifier: %r' % (exc,), wit)
-                    continue
-                sm = CUR.get('summary')
-                ctx.case((ip, isrc, lo, hi, ctx.shard), nontrivial=sm is not None,
-                         sample=dict(style=pinfo['style'], valid=valid, flux=flux, error=err, av_range=(lo, hi),
-                                     n_models=len(names)))
-                if sm:
-                    ctx.event('rows_checked', sm['rows'])
-                    if sm['interior']:
-                        ctx.regime('av_interior', sm['interior'])
-                    if sm['clamped_lo']:
-                        ctx.regime('av_clamped_lo', sm['clamped_lo'])
-                    if sm['clamped_hi']:
-                        ctx.regime('av_clamped_hi', sm['clamped_hi'])
-                    if lo == hi:
-                        ctx.regime('lo_eq_hi')
-                    if sm['limit_violated']:
-                        ctx.regime('limit_violated', sm['limit_violated'])
-                    if sm['limit_satisfied']:
-                        ctx.regime('limit_satisfied', sm['limit_satisfied'])
+                one_fit(ft, lo, hi, names, logm, k, delta, src, (valid, flux, err), wit, (ip, isrc, lo, hi, ctx.shard))
+                last = (ft, lo, hi, names, logm, k, delta, src, (valid, flux, err), wit)
         CUR.update(phot=None)
-        ctx.rmdir(d)
+        if PREV_DIR:
+            ctx.rmdir(PREV_DIR.pop())
+        del PREV[:]
+        if last is not None:
+            PREV.append(last)
+            PREV_DIR.append(d)       # keep the package on disk while its fitter is still in use
+        else:
+            ctx.rmdir(d)
 
 
 def replay(ctx, rec):
